@@ -23,8 +23,8 @@ from vlib import OkV, Diag, Internal  # noqa: E402
 
 LEVEL = 'proof'
 RULE = ('pass level: modules from tools/gen/irgen.py (all features: x op x, calls with repeated arguments, phis with '
-        'repeated values, two edges to one successor, self loops, allocas, shuffled block order) plus ten hand-made '
-        'minimal witnesses, plus build-C02\'s sources: its 10 C idiom files and seeded C programs compiled by api.c_to_ir for x86_64/arm (canonical pipeline x3, Mem2Reg followed by every other pass, one random sequence) and its irgen extension incl. alias / pun kinds; every pass of ppci.opt on a fresh copy and one random pass sequence (length 2..8) per module, '
+        'repeated values, two edges to one successor, self loops, allocas, shuffled block order) plus ten hand-made minimal witnesses and 12 deterministic constant-cjump shapes (dropped edge into a plain block / loop header / shared block / nested-loop header; all passes found in ppci.opt), '
+        'plus build-C02\'s sources: its 10 C idiom files and seeded C programs compiled by api.c_to_ir for x86_64/arm (canonical pipeline x3, Mem2Reg followed by every other pass, one random sequence) and its irgen extension incl. alias / pun kinds; every pass of ppci.opt on a fresh copy and one random pass sequence (length 2..8) per module, '
         'checked after EVERY pass; non-trivial = (module, pass) pair whose pass changed the imported module. '
         'mutators: random scenarios of 1..4 instructions over 4 values / 3 target blocks biased to repeated operands. '
         'verifier: each generated module clean and with each of 10 breaking edits.')
@@ -263,6 +263,105 @@ def witness_modules(ir):
     }
 
 
+def cjump_shapes(ir):
+    """deterministic corpus: a CONSTANT conditional jump whose dropped edge leads into (a) a plain block,
+    (b) a loop header kept alive by its own back edge, (c) a block that is also reached otherwise,
+    (d) the header of a nested loop; each as constant-false, constant-true with swapped labels (the same
+    edge is dropped) and constant-true (the other edge is dropped).  name -> builder"""
+    def mk(shape, variant):
+        m = ir.Module('cj')
+        f = ir.Function('f', ir.Binding.GLOBAL, ir.i32)
+        m.add_function(f)
+        x = ir.Parameter('x', ir.i32)
+        f.add_parameter(x)
+
+        def blk(n):
+            return f.add_block(ir.Block(n))
+        e = blk('entry')
+        f.entry = e
+        c0 = ir.Const(0, 'c0', ir.i32)
+        c1 = ir.Const(1, 'c1', ir.i32)
+        e.add_instruction(c0)
+        e.add_instruction(c1)
+
+        def cj(src, t, d):
+            # t = the interesting target, d = the other one
+            if variant == 'false':
+                src.add_instruction(ir.CJump(c0, '==', c1, t, d))      # never t
+            elif variant == 'true_swapped':
+                src.add_instruction(ir.CJump(c0, '==', c0, d, t))      # never t
+            else:
+                src.add_instruction(ir.CJump(c0, '==', c0, t, d))      # never d
+        if shape == 'plain':
+            t, d = blk('t'), blk('d')
+            cj(e, t, d)
+            tv = ir.Binop(x, '+', c1, 'tv', ir.i32)
+            t.add_instruction(tv)
+            t.add_instruction(ir.Jump(d))
+            r = ir.Phi('r', ir.i32)
+            d.add_instruction(r)
+            r.set_incoming(e, x)
+            r.set_incoming(t, tv)
+            d.add_instruction(ir.Return(r))
+        elif shape == 'loop_header':
+            lp, d = blk('loop'), blk('done')
+            cj(e, lp, d)
+            a = ir.Phi('a', ir.i32)
+            lp.add_instruction(a)
+            b = ir.Binop(a, '-', c1, 'b', ir.i32)
+            lp.add_instruction(b)
+            lp.add_instruction(ir.CJump(b, '!=', c0, lp, d))
+            a.set_incoming(e, x)
+            a.set_incoming(lp, b)
+            r = ir.Phi('r', ir.i32)
+            d.add_instruction(r)
+            r.set_incoming(e, x)
+            r.set_incoming(lp, b)
+            d.add_instruction(ir.Return(r))
+        elif shape == 'shared':
+            a_, b_, j, k = blk('a'), blk('b'), blk('j'), blk('k')
+            e.add_instruction(ir.CJump(x, '==', c0, a_, b_))
+            cj(a_, j, k)
+            b_.add_instruction(ir.Jump(j))
+            pj = ir.Phi('pj', ir.i32)
+            j.add_instruction(pj)
+            pj.set_incoming(a_, x)
+            pj.set_incoming(b_, c1)
+            j.add_instruction(ir.Jump(k))
+            pk = ir.Phi('pk', ir.i32)
+            k.add_instruction(pk)
+            pk.set_incoming(a_, c0)
+            pk.set_incoming(j, pj)
+            k.add_instruction(ir.Return(pk))
+        else:       # nested loop header
+            h1, h2, l2, d = blk('h1'), blk('h2'), blk('l2'), blk('done')
+            cj(e, h1, d)
+            a = ir.Phi('a', ir.i32)
+            h1.add_instruction(a)
+            h1.add_instruction(ir.Jump(h2))
+            b = ir.Phi('b', ir.i32)
+            h2.add_instruction(b)
+            b2 = ir.Binop(b, '-', c1, 'b2', ir.i32)
+            h2.add_instruction(b2)
+            h2.add_instruction(ir.CJump(b2, '!=', c0, h2, l2))
+            l2.add_instruction(ir.CJump(b2, '!=', c1, h1, d))
+            a.set_incoming(e, x)
+            a.set_incoming(l2, b2)
+            b.set_incoming(h1, a)
+            b.set_incoming(h2, b2)
+            r = ir.Phi('r', ir.i32)
+            d.add_instruction(r)
+            r.set_incoming(e, x)
+            r.set_incoming(l2, b2)
+            d.add_instruction(ir.Return(r))
+        return m
+    out = {}
+    for shape in ('plain', 'loop_header', 'shared', 'nested_header'):
+        for variant in ('false', 'true_swapped', 'true'):
+            out['%s-%s' % (shape, variant)] = (lambda shape=shape, variant=variant: mk(shape, variant))
+    return out
+
+
 # ---------------------------------------------------------------- pass-level validation
 def check_after(O, irimport, m):
     """(problem | None, canonical structure | None) for the current state of the module"""
@@ -329,6 +428,13 @@ def pass_level(ctx, O, irimport, irgen, ir):
     for wname, (builder, ps) in witness_modules(ir).items():
         total += 1
         clean += run_one(ctx, O, irimport, builder, ps, 'witness:' + wname, coq_cases, stats)
+    # deterministic constant-jump shapes: every pass of ppci.opt (incl. those outside the default pipeline),
+    # and CJumpPass followed by the clean-up passes
+    ctx.cov['stages']['passes'] = {'run': names, 'discovered_beyond_table': O.DISCOVERED}
+    for cname, builder in cjump_shapes(ir).items():
+        for seq in [[p] for p in names] + [['CJumpPass', 'CleanPass'], ['CJumpPass', 'DeleteUnused', 'CleanPass', 'CJumpPass']]:
+            total += 1
+            clean += run_one(ctx, O, irimport, builder, seq, 'cjump:' + cname, coq_cases, stats)
     base = ctx.rng.randrange(1 << 30)
     for k in range(n_mod):
         seed = base + k
@@ -532,6 +638,8 @@ def replay(rec):
     sys.path.insert(0, os.path.dirname(os.path.abspath(__file__)))
     if origin.startswith('witness:'):
         m = witness_modules(ir)[origin.split(':', 1)[1]][0]()
+    elif origin.startswith('cjump:'):
+        m = cjump_shapes(ir)[origin.split(':', 1)[1]]()
     elif origin.startswith('csrc:'):
         import c02_csrc
         _, nm, a = origin.split(':')
